@@ -247,7 +247,7 @@ func deepMismatchCases() []*ProgCase {
 // the selected branch of a conditional, the branch padded so that its end
 // offset sweeps a range: operand bytes (argument counts) take the value of
 // every opcode while every small branch length occurs next to them.
-func dynCallBranchCases(thorough bool) []*ProgCase {
+func dynCallBranchCases(thorough bool, mine func(i int) bool) []*ProgCase {
 	var out []*ProgCase
 	argcs := []int{}
 	for n := 40; n <= 70; n++ {
@@ -278,6 +278,10 @@ func dynCallBranchCases(thorough bool) []*ProgCase {
 		env.Put("b", ref.VBool(true))
 		env.Put("f", &ref.V{T: fT, Fn: fn})
 		for k := 0; k <= pads; k++ {
+			if !mine(len(out)) {
+				out = append(out, nil) // built only in the worker that runs it
+				continue
+			}
 			first := ref.Num("0", 0)
 			for i := 0; i < k; i++ {
 				first = ref.CallF(ref.FInfix, "+", first, ref.Num("0", 0))
